@@ -11,7 +11,11 @@ MANIFEST = {
             "delivered to live endpoints (server idle / with an observation / with a partial Block1 body, client with an outstanding request) "
             "followed by a canary request; a sanitizer abort, a handler call on rejected input or a failed canary is a concrete violation. "
             "The hostile-peer inputs of the block-wise code (C09's crcv/srcv2/xmit1 ops: inconsistent Block/Size options; never-written bytes seen by "
-            "running twice with different allocation poisons) and of the stream readers (C05's tcp/ws ops) run here as well, with the owners' models and oracles.",
+            "running twice with different allocation poisons) and of the stream readers (C05's tcp/ws ops) run here as well, with the owners' models and oracles. "
+            "RFC 9177 (Q-Block): the client's 4.08 missing-blocks parser is transcribed and proved for ALL payloads to stay inside the payload, to terminate, to send "
+            "at most MAX_PAYLOADS blocks and only blocks of its body (q408_never_oob, q408_only_blocks_of_body, q408_bounded), to agree with the server's encoder "
+            "(q408_roundtrip), and the missing-blocks walk over the received-blocks ranges to name exactly the unrecorded numbers below a recorded one "
+            "(qblock_missing_represents); tied to the real code by ops q408 / qenc / qset, and servers holding Q-Block1 / Q-Block2 state are attacked by datagram sequences.",
     "note": "Partial: memory safety, use-after-free, uninitialised reads and UB of the compiled C are observed by sanitizers on the inputs run, not "
             "proved; readers outside the modelled decoder (block, observe, OSCORE, URI, WebSocket code) are exercised by the sequences and owned by "
             "C05/C09/C14/C16/C20's own no-overread theorems. Trusted: Lean kernel (+ propext, Classical.choice, Quot.sound), harnesses, generators, sim_core.h.",
